@@ -5,3 +5,4 @@ use std::collections::HashMap;
 use std::hash::{BuildHasher, Hash};
 use std::borrow::Borrow;
 use vstd::std_specs::hash::*;
+use std::mem;
